@@ -57,6 +57,7 @@ impl<T> ResourceStorage<T> {
 				.push(resource)
 				.unwrap_or_else(|_| panic!("unused resource producer is full"));
 		}
+		verif_hook!("res.raa.removed", self as *const Self as usize, 0);
 		while let Ok((key, resource)) = self.new_resource_consumer.pop() {
 			self.resources
 				.insert_with_key(key, resource)
@@ -130,6 +131,7 @@ impl<T> SelfReferentialResourceStorage<T> {
 
 	pub fn remove_and_add(&mut self, remove_test: impl FnMut(&T) -> bool) {
 		self.remove_unused(remove_test);
+		verif_hook!("res.raa.removed", self as *const Self as usize, 0);
 		while let Ok((key, resource)) = self.new_resource_consumer.pop() {
 			self.resources
 				.insert_with_key(key, resource)
@@ -199,18 +201,22 @@ impl<T> ResourceController<T> {
 	}
 
 	pub fn try_reserve(&self) -> Result<Key, ResourceLimitReached> {
+		verif_hook!("res.reserve.pre", self as *const Self as usize, 0);
 		self.arena_controller
 			.try_reserve()
 			.map_err(|_| ResourceLimitReached)
 	}
 
 	pub fn insert_with_key(&mut self, key: Key, resource: T) {
+		verif_hook!("res.insert.pre", self as *const Self as usize, 0);
 		self.remove_unused();
+		verif_hook!("res.insert.drained", self as *const Self as usize, 0);
 		self.new_resource_producer
 			.get_mut()
 			.expect("new resource producer mutex poisoned")
 			.push((key, resource))
 			.unwrap_or_else(|_| panic!("new resource producer full"));
+		verif_hook!("res.insert.post", self as *const Self as usize, 0);
 	}
 
 	fn remove_unused(&mut self) {
